@@ -44,7 +44,7 @@ def encode(layout, c):
     """layout: zeros, paddr (>=2), prologue_zeroed, end_by_zero_offset, strpad, extra_pad_blocks
     content c: records, first (1-based first frame number), rate (hex bits), gap, scale_bits, nev, evtime[18], evdisp[9],
     evlab[18], npoints, nchan, nsub, frames [(pts [(x,y,z,r) hex], an [[v hex]*nchan]*nsub)], arate"""
-    L = dict(zeros=0, paddr=2, prologue_zeroed=False, end_by_zero_offset=False, strpad=b' ', extra_pad_blocks=0)
+    L = dict(zeros=0, paddr=2, prologue_zeroed=False, end_by_zero_offset=False, strpad=b' ', extra_pad_blocks=0, proc=84)
     L.update(layout)
     recs = c['records']
     body = b''
@@ -55,7 +55,7 @@ def encode(layout, c):
             # position of the value inside the record: head(2+name) + off(2) + type,ndims(2) + dims
             ds_pos = len(body) + 2 + len(r[2]) + 2 + 2 + len(r[6])
         body += b
-    sec = bytearray(b'\x00\x00\x00T' if L['prologue_zeroed'] else b'\x01P\x00T') + body
+    sec = bytearray((b'\x00\x00\x00' if L['prologue_zeroed'] else b'\x01P\x00') + bytes([L['proc']])) + body
     if not L['end_by_zero_offset']: sec += b'\x00'          # zero name length ends the chain
     while len(sec) % 512: sec += b'\x00'
     sec += b'\x00' * (512 * L['extra_pad_blocks'])
@@ -185,7 +185,7 @@ def decode(buf, strict=True):
     g = groups_of(recs)
     out = dict(zeros=z, paddr=paddr, records=recs, groups=g, npoints=npoints, nmeas=nmeas, first=first, last=last, gap=gap,
                scale_bits=scale_bits, dstart=dstart, nsub=nsub, rate='%08x' % rate, nev=nev, evtime=evtime, evdisp=evdisp, evlab=evlab,
-               nblocks=nblocks, four=four, keylab=keylab, keyblk=keyblk)
+               nblocks=nblocks, four=four, keylab=keylab, keyblk=keyblk, proc=buf[base + 3])
     data_off = base + 512 * nblocks
     issues = []
     def issue(comp, msg): issues.append((comp, msg))
